@@ -758,6 +758,11 @@ pub struct PassParams<'a> {
     /// taken as the left context of the rebuilt word (TeX §903 makes it `hu[0]` with `j = 0`); the word
     /// is rebuilt from its first letter as if a glue or kern preceded it.
     pub ignore_left_context: bool,
+    /// Part of the D21b adjusted model: when true a word that ends at a plain letter node (TeX:
+    /// `hyf_bchar = non_char`, §897) is rebuilt with the font's boundary character at its right end, as
+    /// if a boundary kern or boundary ligature had followed it. Invisible as long as the rebuilt word
+    /// equals the original one.
+    pub font_bchar_at_word_end: bool,
 }
 
 /// §902-903 + §913-918 for one word found by `find_word`. `list` is the whole list; returns the nodes
@@ -785,6 +790,7 @@ pub fn hyphenate_word(list: &[TNode], w: &Word, font: &LkFont, pp: &PassParams) 
     }
     hu[hn + 1] = NON_CHAR; // never read as a letter: set_cur_r uses bchar when j = n
     let bchar: u32 = match w.bchar {
+        Bchar::NonChar if pp.font_bchar_at_word_end => font.bchar.map(|c| c as u32).unwrap_or(NON_CHAR),
         Bchar::NonChar => NON_CHAR,
         Bchar::Font => font.bchar.map(|c| c as u32).unwrap_or(NON_CHAR),
         Bchar::Char(c) => c as u32,
@@ -1026,7 +1032,7 @@ mod tests {
             let mut lang = Liang::new();
             lang.add_exception(exc, &ascii_lc);
             let hyf = |w: &[char]| lang.hyf(w);
-            let pp = PassParams { hyf: &hyf, lc: &ascii_lc, uc_hyph: true, l_hyf, r_hyf: 1, hyphen_char: '-', always_left_boundary: false, always_rebuild: false, ignore_left_context: false };
+            let pp = PassParams { hyf: &hyf, lc: &ascii_lc, uc_hyph: true, l_hyf, r_hyf: 1, hyphen_char: '-', always_left_boundary: false, always_rebuild: false, ignore_left_context: false, font_bchar_at_word_end: false };
             render(&hyphenate_list(&list, &font, &pp)[2..])
         };
         // ab -> axb^   (|=:|>>)
